@@ -926,10 +926,14 @@ func TestVerifC06(t *testing.T) {
 	deep := vNew("C06/minimize-with-lalr-k", "seeded reduce/reduce families S: [x] A t.. | [x] B u.. | [y] C t.. | [y] D u.. with A,B,C,D: e|f and tails of 2..3 tokens sharing a prefix, compiled with lalr(2) and lalr(3), with and without minimizeDFA; all sentences and their single-token edits", false,
 		"minimize", "partitionStatesByAction", "compiler.resolveWithLookahead")
 	for i := 0; i < hCount(400, 8000); i++ {
-		nt := 8
+		nt := 10
 		hg := &hGrammar{nt: nt, nn: 5, inputs: []Input{{Nonterminal: Sym(nt), Eoi: true}}}
 		S := Sym(nt)
 		N := []Sym{Sym(nt + 1), Sym(nt + 2), Sym(nt + 3), Sym(nt + 4)}
+		// two of three grammars get a pair of alternatives whose last states are bisimilar (S: h i | i i),
+		// and the second conflict sits one or two tokens deep: states that are merged then come before
+		// a state whose reductions are decided by a lookahead trie, so minimization renumbers that state
+		pad, deepPrefix := r.Intn(3) != 0, r.Intn(2) == 0
 		first := Sym(3 + r.Intn(3))
 		tailOf := func() []Sym {
 			s := []Sym{first}
@@ -948,13 +952,38 @@ func TestVerifC06(t *testing.T) {
 			{LHS: N[2], RHS: []Sym{Sym(2 + r.Intn(2)*5)}}, {LHS: N[3], RHS: nil},
 		}
 		hg.rules[7].RHS = hg.rules[6].RHS
+		if deepPrefix {
+			hg.rules[2].RHS = append([]Sym{1}, hg.rules[2].RHS...)
+			hg.rules[3].RHS = append([]Sym{1}, hg.rules[3].RHS...)
+		}
+		if pad {
+			hg.rules = append(hg.rules, Rule{LHS: S, RHS: []Sym{8, 9}}, Rule{LHS: S, RHS: []Sym{9, 9}})
+		}
 		if !hg.useful() {
 			continue
 		}
 		for _, k := range []int{2, 3} {
-			g := hg.build()
+			g, g2 := hg.build(), hg.build()
+			if pad {
+				// the two padding rules form one rule class (same left-hand side, length, action, type)
+				for _, x := range []*Grammar{g, g2} {
+					x.Rules[len(x.Rules)-1].Action = x.Rules[len(x.Rules)-2].Action
+				}
+			}
+			// reductions are compared up to the rule class, as the property states it
+			cls := func(ev []string) []string {
+				out := make([]string, len(ev))
+				for j, e := range ev {
+					out[j] = e
+					var ri int
+					if n, _ := fmt.Sscanf(e, "r%d", &ri); n == 1 && ri < len(g.Rules) {
+						out[j] = fmt.Sprintf("r(lhs %d, len %d, action %d)", g.Rules[ri].LHS, len(g.Rules[ri].RHS), g.Rules[ri].Action)
+					}
+				}
+				return out
+			}
 			plain, e1, p1 := hCompile(g, Options{Lookahead: k})
-			mini, e2, p2 := hCompile(hg.build(), Options{Lookahead: k, MinimizeDFA: true})
+			mini, e2, p2 := hCompile(g2, Options{Lookahead: k, MinimizeDFA: true})
 			desc := fmt.Sprintf("%s lalr(%d)", hg.String(), k)
 			if p1 != "" || p2 != "" {
 				deep.Case(true)
@@ -965,15 +994,15 @@ func TestVerifC06(t *testing.T) {
 				deep.Case(false)
 				continue
 			}
-			deep.Case(true) // multi-token lookahead is in use (whether or not states get merged)
+			deep.Case(mini.NumStates < plain.NumStates) // multi-token lookahead is in use; non-trivial when states get merged
 			if i < 40 {
 				deep.Sample(fmt.Sprintf("%s (%d -> %d states)", desc, plain.NumStates, mini.NumStates))
 			}
 			for _, w := range hSentenceNeighbours(hg, 8, 80) {
 				a1, ev1, _ := plain.hRunDeep(g, 0, w, nil)
 				a2, ev2, _ := mini.hRunDeep(g, 0, w, nil)
-				if a1 != a2 || fmt.Sprint(ev1) != fmt.Sprint(ev2) {
-					deep.Failf(desc, "tokens %q: unminimized accept=%v %v, minimized accept=%v %v", hStr(w), a1, ev1, a2, ev2)
+				if a1 != a2 || fmt.Sprint(cls(ev1)) != fmt.Sprint(cls(ev2)) {
+					deep.Failf(desc, "tokens %q: unminimized accept=%v %v, minimized accept=%v %v", hStr(w), a1, cls(ev1), a2, cls(ev2))
 					break
 				}
 			}
